@@ -122,7 +122,7 @@ theorem used_spec (a : Acc) (ha : a.WF) {v : Nat} (hv : v < a.size) :
   obtain ⟨x0, x1, x2, x3, hr⟩ := array_size_four (row_size a ha hv)
   rw [pyIndex_accPV a hv, bnd_ok, npCmp_ge_rowPV, bnd_ok, live_of_row a v hr, hr]
   by_cases h0 : 0 ≤ x0 <;> by_cases h1 : 0 ≤ x1 <;> by_cases h2 : 0 ≤ x2 <;> by_cases h3 : 0 ≤ x3 <;>
-    simp [npWhere, trueIdx, idxPV, h0, h1, h2, h3]
+    simp [npWhere, trueIdx, idxPV, PV.isArr, h0, h1, h2, h3]
 
 /-! ### `argsort(shuffles[v, used])[d]` -/
 
